@@ -88,9 +88,15 @@ class BundleContainer(object):
             pri.create_ts.getfieldval('seqno')
         ]
         if pri.bundle_flags & PrimaryBlock.Flag.IS_FRAGMENT:
+            # A fragment is identified by its own extent, two fragments can
+            # start at the same offset of the same total with different length
+            try:
+                pyld_len = len(self.block_num(Bundle.BLOCK_NUM_PAYLOAD).getfieldval('btsd'))
+            except (KeyError, TypeError):
+                pyld_len = None
             ident += [
                 pri.fragment_offset,
-                pri.total_app_data_len,
+                pyld_len,
             ]
         return tuple(ident)
 
